@@ -411,6 +411,58 @@ func checkC11(r *Result) {
 				r.check(okB && nBack > 0, "ESCROW-RECORD", "(x/reporter/keeper.Keeper).EscrowReporterStake # an origin is skipped only when its final share (leftover included) is zero", P.Pos(undelegates[0].Pos()), fmt.Sprintf("%d back edges", nBack))
 			}
 		}
+		// the rounding leftover: leftover_0 = amt, leftover_i = leftover_(i-1) - share_i, and the last origin's share is
+		// share + leftover, added on the true edge of `i == len(origins) - 1`: the shares of all origins add up to amt
+		{
+			okLeft, detLeft := false, "no share + leftover addition found"
+			for _, b := range er.Blocks {
+				for _, in := range b.Instrs {
+					add, ok := in.(*ssa.Call)
+					if !ok || CalleeName(add.Common()) != "(cosmossdk.io/math.Int).Add" || len(add.Call.Args) != 2 {
+						continue
+					}
+					share := add.Call.Args[0]
+					sub, ok := add.Call.Args[1].(*ssa.Call)
+					if !ok || CalleeName(sub.Common()) != "(cosmossdk.io/math.Int).Sub" || len(sub.Call.Args) != 2 {
+						continue
+					}
+					ph, isPhi := sub.Call.Args[0].(*ssa.Phi)
+					if !isPhi || sub.Call.Args[1] != share {
+						detLeft = "the leftover is not (previous leftover - this origin's share)"
+						continue
+					}
+					fromAmt, fromSelf, onlyThose := false, false, true
+					for _, e := range ph.Edges {
+						switch {
+						case tm.Of(e).Op == "param:5:cosmossdk.io/math.Int":
+							fromAmt = true
+						case e == ssa.Value(sub):
+							fromSelf = true
+						default:
+							onlyThose = false
+						}
+					}
+					condOK := false
+					for _, p := range add.Block().Preds {
+						iff, isIf := p.Instrs[len(p.Instrs)-1].(*ssa.If)
+						if !isIf {
+							continue
+						}
+						rel, pol := Cond(tm.Of(iff.Cond))
+						if rel.Op == "==" && len(rel.Args) == 2 && (p.Succs[0] == add.Block()) == pol {
+							for _, pair := range [][2]*Term{{rel.Args[0], rel.Args[1]}, {rel.Args[1], rel.Args[0]}} {
+								if lim := pair[1]; lim.Op == "-" && len(lim.Args) == 2 && lim.Args[0].Op == "call:builtin:len" && lim.Args[0].Contains("TokenOrigins") && lim.Args[1].Op == "const:1" {
+									condOK = true
+								}
+							}
+						}
+					}
+					okLeft = fromAmt && fromSelf && onlyThose && condOK
+					detLeft = fmt.Sprintf("leftover starts at the requested amount: %v ; is carried as (leftover - share): %v ; added under index == len - 1: %v", fromAmt, fromSelf, condOK)
+				}
+			}
+			r.check(okLeft, "LIN-SLASH", "(x/reporter/keeper.Keeper).EscrowReporterStake # the last origin takes share + (amt - sum of all shares): the requests add up to the slash amount", P.Pos(er.Pos()), detLeft)
+		}
 		// recorded amounts per origin add up to the share
 		sum := newPoly()
 		n := 0
